@@ -8,7 +8,7 @@ real repository after every command."""
 from . import histcheck
 
 LEVEL = "proof"
-PROFILES = [('REORDER', 3), ('UNDO', 1)]
+PROFILES = [('REORDER', 3), ('UNDO', 1), ('NOCONF', 2)]
 ORACLES = ['c09', 'content', 'c02']
 
 
